@@ -18,7 +18,7 @@ GUARD_NAME = re.compile(r"volatil|ref_?count|reference_count|num_references|sing
 
 
 def run(ctx):
-    return _rule_cte(ctx) + [rule_groupidx(ctx["facts"]), rule_matshare(ctx["facts"])]
+    return _rule_cte(ctx) + [rule_groupidx(ctx["facts"]), rule_matshare(ctx["facts"]), rule_marknull(ctx["facts"])]
 
 
 def _rule_cte(ctx):
@@ -282,4 +282,31 @@ def rule_matshare(facts):
     if nsites < 3:
         r.missing_anchor(f"LogicalMaterializationScan construction sites (found {nsites}, expected at least 3)")
     r.notes.append(f"scan_count readers: {readers or 'none (pairing recorded, not yet load-bearing)'}")
+    return r
+
+
+def rule_marknull(facts):
+    """`x IN (subquery)` / `x NOT IN (subquery)` is planned as a LeftMark join whose extra column is the IN verdict. SQL's verdict is
+    three-valued: with no equal element it is NULL (not FALSE) when x is NULL or the subquery produced a NULL. A mark column that can only
+    be written TRUE/FALSE cannot express that, so `NOT IN` over a subquery with a NULL keeps rows it must drop. Decided: each function
+    that materialises the mark column has a path that invalidates (NULLs) an entry of it."""
+    r = RuleResult("C09-MARKNULL", "the functions that write the LeftMark join's verdict column can write NULL (the IN verdict is three-valued)", floor=2)
+    OPS = "glaredb_core::execution::operators::"
+    for rec in facts.fns_matching(lambda i: (OPS + "hash_join::" in i or OPS + "nested_loop_join::" in i) and "left_mark" in i.rsplit("::", 1)[-1]
+                                  and "::tests::" not in i):
+        if rec.get("dk") == "Closure":
+            continue
+        fn = Fn(rec)
+        r.functions.add(fn.id)
+        nulls = [c for c in fn.calls() if any(c.name.endswith(x) for x in ("Validity::set_invalid", "Array::put_validity", "Array::new_null", "PutBuffer::<M>::put_null",
+                                                                           "Validity::new_all_invalid"))]
+        # writers only: functions that write a bool column (direct store into a PhysicalBool addressable or read_arrays into the match column)
+        writes = "PhysicalBool" in str(rec["bbs"]) or "read_arrays" in str(rec["bbs"])
+        if not writes:
+            continue
+        ok = bool(nulls)
+        r.inst({"fn": fn.id, "writes_verdict_column": True, "can_write_null": ok}, ok)
+        if not ok:
+            r.violate(fn.id, "mark-column-two-valued", "the LeftMark verdict column is written as a plain bool (matched / not matched) and never NULL: "
+                      "`x NOT IN (subquery containing NULL)` keeps rows for which the SQL verdict is unknown", rec["file"], rec["line"])
     return r
